@@ -98,13 +98,19 @@ def run_instance(inst):
         sig.update(extra or {})
         res["violations"].append({"signature": sig, "what": f"{name} {solver}/{vs}: {what}", "replay": {"inst": inst, "clause": clause}})
 
-    def decide(pairs, clause, what, extra=None):
-        verdict, info = equiv.decide_equal(pairs, f"C08/{clause}", timeout=timeout, rng=rng, counters=res["counters"], resolver=stub.resolver, opaque_prefix="sp")
+    RUN = lambda fn, *a: simenc.Run(fn, a, enc)
+    ALL = lambda x_, y_: (equiv.flat(x_), equiv.flat(y_))
+
+    def decide(pairs, clause, what, extra=None, runs=None):
+        if runs is not None:
+            verdict, info = equiv.decide_runs(runs[0], runs[1], runs[2], f"C08/{clause}", timeout=timeout, rng=rng, counters=res["counters"], resolver=stub.resolver, opaque_prefix="sp")
+        else:
+            verdict, info = equiv.decide_equal(pairs, f"C08/{clause}", timeout=timeout, rng=rng, counters=res["counters"], resolver=stub.resolver, opaque_prefix="sp")
         res["counters"][f"{clause}_{verdict}"] = res["counters"].get(f"{clause}_{verdict}", 0) + 1
         if verdict in ("structural", "unsat"):
             return True
-        if verdict == "differs":
-            viol(clause, f"{what}: results differ numerically at a sampled symbolic point (DAGs are functions of the same symbols)", extra)
+        if verdict in ("differs", "shape"):
+            viol(clause, f"{what}: results differ ({verdict}; reproduced on the real API at the sampled input)" if runs is not None else f"{what}: results differ numerically at a sampled symbolic point (DAGs are functions of the same symbols)", extra)
         elif verdict == "sat":
             res["inconclusive"].append({"instance": inst, "query": clause, "reason": "solver model but equal at sampled points"})
         else:
@@ -133,8 +139,9 @@ def run_instance(inst):
             states = step_fn(dict(states), params, {"i": cur[:, t]}, {"i": np.asarray(stim_rows)}, DT)
             out.append(dict(states))
         return out
-    recs = sym.to_obj(enc(sim, sm.arrays(), stim))
-    traj = enc(manual, sm.arrays(), stim)
+    RSIM = RUN(sim, sm.arrays(), stim); RMAN = RUN(manual, sm.arrays(), stim)
+    recs = sym.to_obj(RSIM.sym)
+    traj = RMAN.sym
     if recs.shape != (len(plan), nsteps + 1):
         viol("REC_shape", f"recordings shape {recs.shape}, expected {(len(plan), nsteps + 1)}")
     else:
@@ -155,7 +162,8 @@ def run_instance(inst):
                     viol("REC_position", f"record #{r}: state array {state} has {len(arr)} entries, position {pos}"); pairs = None; break
                 pairs.append((recs[r, k], arr[pos]))
             if pairs:
-                decide(pairs, "REC_trajectory", f"record #{r} ({state} at {kind} {row}) vs manual stepping at the harness coordinate", {"kind": kind, "state_kind": "synaptic" if kind == "edge" else "membrane"})
+                sel_ = lambda x_, y_, r=r, state=state, pos=pos: ([x_[r, k] for k in range(nsteps + 1)], [np.asarray(y_[k][state], dtype=object).reshape(-1)[pos] for k in range(nsteps + 1)])
+                decide(pairs, "REC_trajectory", f"record #{r} ({state} at {kind} {row}) vs manual stepping at the harness coordinate", {"kind": kind, "state_kind": "synaptic" if kind == "edge" else "membrane"}, runs=(RSIM, RMAN, sel_))
         # TIME: syntactic independence + numeric dependence
         for k in range(nsteps + 1):
             sup = stub.deep_support(list(recs[:, k]))
@@ -179,18 +187,20 @@ def run_instance(inst):
         T = nsteps + extra_steps
         t_max = (T - 1) * DT + DT / 2       # int(t_max // dt + 1) == T
         try:
-            out = sym.to_obj(enc(lambda a_, c_, tm=t_max: sim(a_, c_, tm), base_syms, stim))
+            ROUT = RUN(lambda a_, c_, tm=t_max: sim(a_, c_, tm), base_syms, stim)
+            out = sym.to_obj(ROUT.sym)
         except Exception as ex:
             viol("TMAX", f"t_max={t_max} raised {type(ex).__name__}: {str(ex)[:100]}"); continue
         if extra_steps > 0:
             cur2 = np.concatenate([stim, sym.to_obj(np.zeros((len(stim_rows), extra_steps)))], axis=1)
         else:
             cur2 = stim[:, :T]
-        ref = sym.to_obj(enc(lambda a_, c_: sim(a_, c_), base_syms, cur2))
+        RREF = RUN(lambda a_, c_: sim(a_, c_), base_syms, cur2)
+        ref = sym.to_obj(RREF.sym)
         if out.shape != ref.shape:
             viol("TMAX", f"t_max={t_max}: shape {out.shape} vs {ref.shape}")
         else:
-            decide(list(zip(out.reshape(-1), ref.reshape(-1))), "TMAX", f"t_max covering {T} steps with {nsteps}-sample stimulus")
+            decide(None, "TMAX", f"t_max covering {T} steps with {nsteps}-sample stimulus", runs=(ROUT, RREF, ALL))
     # ------------------------------------------------------------------ ADD
     def sim_two(arrays, a, b):
         ds = m.select(nodes=[stim_rows[-1]]).data_stimulate(a, None)
@@ -200,18 +210,16 @@ def run_instance(inst):
         ds = m.select(nodes=[stim_rows[-1]]).data_stimulate(a + b, None)
         return jx.integrate(m, param_state=sm.pstate(arrays), data_stimuli=ds, **kw)
     A, B = sym.symvec("Ia", (1, nsteps)), sym.symvec("Ib", (1, nsteps))
-    two = sym.to_obj(enc(sim_two, base_syms, A, B)); one = sym.to_obj(enc(sim_one, base_syms, A, B))
-    if two.shape != one.shape: viol("ADD", "shapes differ")
-    else: decide(list(zip(two.reshape(-1), one.reshape(-1))), "ADD", "two stimuli on one compartment vs their sum")
+    RTWO = RUN(sim_two, base_syms, A, B); RONE = RUN(sim_one, base_syms, A, B)
+    decide(None, "ADD", "two stimuli on one compartment vs their sum", runs=(RTWO, RONE, ALL))
     # ------------------------------------------------------------------ DATA vs static
     cur_c = rng.uniform(-0.2, 0.4, (len(stim_rows), nsteps))
     m2 = zoo.build(name); apply_plan(m2, plan)
     m2.select(nodes=stim_rows).stimulate(jnp.asarray(cur_c), verbose=False)
     sm2 = simenc.SymModule(m2)
-    stat = sym.to_obj(enc(lambda a_: jx.integrate(m2, param_state=sm2.pstate(a_), **kw), sm2.arrays()))
-    dat = sym.to_obj(enc(lambda a_: sim(a_, jnp.asarray(cur_c)), base_syms))
-    if stat.shape != dat.shape: viol("DATA_stimulate", "shapes differ")
-    else: decide(list(zip(stat.reshape(-1), dat.reshape(-1))), "DATA_stimulate", "stimulate vs data_stimulate")
+    RSTAT = RUN(lambda a_: jx.integrate(m2, param_state=sm2.pstate(a_), **kw), sm2.arrays())
+    RDAT = RUN(lambda a_: sim(a_, jnp.asarray(cur_c)), base_syms)
+    decide(None, "DATA_stimulate", "stimulate vs data_stimulate", runs=(RSTAT, RDAT, ALL))
     # ------------------------------------------------------------------ CLAMP (v, a channel state, a synaptic state)
     clamp_targets = [("v", "node", len(m.nodes) - 1)]
     for ch in m.channels:
@@ -250,9 +258,9 @@ def run_instance(inst):
         sel(m4).clamp(state, jnp.asarray(cc), verbose=False)
         sm4 = simenc.SymModule(m4)
         try:
-            st_ = sym.to_obj(enc(lambda a_: jx.integrate(m4, param_state=sm4.pstate(a_), **kw), sm4.arrays()))
-            dt_ = sym.to_obj(enc(lambda a_: sim_clamp(a_, jnp.asarray(cc)), sm3.arrays()))
-            decide(list(zip(st_.reshape(-1), dt_.reshape(-1))), "DATA_clamp", f"clamp vs data_clamp of {state}")
+            RS_ = RUN(lambda a_: jx.integrate(m4, param_state=sm4.pstate(a_), **kw), sm4.arrays())
+            RD_ = RUN(lambda a_: sim_clamp(a_, jnp.asarray(cc)), sm3.arrays())
+            decide(None, "DATA_clamp", f"clamp vs data_clamp of {state}", runs=(RS_, RD_, ALL))
         except Exception as ex:
             viol("DATA_clamp", f"clamp of {state} raised {type(ex).__name__}: {str(ex)[:100]}")
     # ------------------------------------------------------------------ CHARGE: I nA add exactly I*dt of charge, whatever the geometry
